@@ -26,10 +26,12 @@ use val::*;
 /// counts the bytes requested from the allocator (C10: allocation in proportion to the input)
 pub struct Counting;
 pub static REQUESTED: std::sync::atomic::AtomicUsize = std::sync::atomic::AtomicUsize::new(0);
+/// live heap bytes (C19: a failed decode leaves nothing behind)
+pub static LIVE: std::sync::atomic::AtomicIsize = std::sync::atomic::AtomicIsize::new(0);
 unsafe impl std::alloc::GlobalAlloc for Counting {
-    unsafe fn alloc(&self, l: std::alloc::Layout) -> *mut u8 { REQUESTED.fetch_add(l.size(), std::sync::atomic::Ordering::Relaxed); unsafe { std::alloc::System.alloc(l) } }
-    unsafe fn dealloc(&self, p: *mut u8, l: std::alloc::Layout) { unsafe { std::alloc::System.dealloc(p, l) } }
-    unsafe fn realloc(&self, p: *mut u8, l: std::alloc::Layout, n: usize) -> *mut u8 { REQUESTED.fetch_add(n.saturating_sub(l.size()), std::sync::atomic::Ordering::Relaxed); unsafe { std::alloc::System.realloc(p, l, n) } }
+    unsafe fn alloc(&self, l: std::alloc::Layout) -> *mut u8 { REQUESTED.fetch_add(l.size(), std::sync::atomic::Ordering::Relaxed); LIVE.fetch_add(l.size() as isize, std::sync::atomic::Ordering::Relaxed); unsafe { std::alloc::System.alloc(l) } }
+    unsafe fn dealloc(&self, p: *mut u8, l: std::alloc::Layout) { LIVE.fetch_sub(l.size() as isize, std::sync::atomic::Ordering::Relaxed); unsafe { std::alloc::System.dealloc(p, l) } }
+    unsafe fn realloc(&self, p: *mut u8, l: std::alloc::Layout, n: usize) -> *mut u8 { REQUESTED.fetch_add(n.saturating_sub(l.size()), std::sync::atomic::Ordering::Relaxed); LIVE.fetch_add(n as isize - l.size() as isize, std::sync::atomic::Ordering::Relaxed); unsafe { std::alloc::System.realloc(p, l, n) } }
 }
 #[global_allocator]
 static ALLOC: Counting = Counting;
